@@ -9,7 +9,7 @@ with the model run under the same order (conformance)."""
 import json, os, random
 import vlib
 
-FAMILIES = ["types", "consts", "svcs", "mixed", "modules", "modsvcs", "dotted", "aliasitem"]
+FAMILIES = ["types", "consts", "svcs", "mixed", "modules", "modsvcs", "dotted", "aliasitem", "lists"]
 
 
 def canary(row, rng):
